@@ -63,7 +63,7 @@ def scenarios(rng: random.Random, n: int, thorough: bool):
         if thorough and rng.random() < 0.2:
             cfg.pop("max_calc_step_size_feet")
         scs.append({"shot": p, "cfg": cfg, "tid": 0, "mode": mode, "range_ft": rng_ft, "unit": "Foot",
-                    "step_ft": rng_ft / rng.choice([5, 20]), "extra": rng.random() < 0.4, "watchdog_s": 90,
+                    "step_ft": rng_ft / rng.choice([5, 20]), "extra": rng.random() < 0.4, "watchdog_s": 300,
                     **({"time_step": 0.2} if mode in ("vertical",) else {})})
     return scs
 
@@ -159,5 +159,5 @@ def run(chk: core.Check, replay=None) -> None:
                     "code->spec: seeded real shots (vertical, downward, slow, zero-velocity, high station, beyond reach, each limit, "
                     "several limits at once) run under a wall-clock watchdog, validated by Trace_Integrator, each RangeError paired with "
                     "the same shot with the fired limit relaxed; non-trivial = a call with >= 3 rows")
-    chk.assumptions += ["limit predicates carry a 1e-10 relative band", "termination = returns or raises within the 90 s watchdog",
+    chk.assumptions += ["limit predicates carry a 1e-10 relative band", "termination = returns or raises within the 300 s watchdog",
                         "'without the limit' = the limit that fired relaxed by a margin (the fully unlimited vertical shot never ends)"]
